@@ -159,7 +159,13 @@ func (a *archiver) worker(workerID string) {
 			return
 		case <-controlChans.PauseCh:
 			logger.Debug("received pause event")
-			controlChans.ResumeCh <- struct{}{}
+			// A stop request must also reach a paused worker
+			select {
+			case <-a.ctx.Done():
+				logger.Debug("shutting down while paused")
+				return
+			case controlChans.ResumeCh <- struct{}{}:
+			}
 			logger.Debug("received resume event")
 		case seed, ok := <-a.inputCh:
 			if ok {
